@@ -224,7 +224,7 @@ fn run(out: &mut Out, sched: &Value) {
     // rewind nothing: the clock offset only grows; pending deadlines are relative to it
 }
 
-fn rand_ops(rng: &mut impl Rng, bits: usize, local: u64, len: usize, timeout: i64, closest: bool) -> Vec<Value> {
+fn rand_ops(rng: &mut impl Rng, bits: usize, local: u64, len: usize, timeout: i64, closest: u64) -> Vec<Value> {
     let nk = 1u64 << bits;
     let mut ops = vec![];
     for _ in 0..len {
@@ -235,11 +235,13 @@ fn rand_ops(rng: &mut impl Rng, bits: usize, local: u64, len: usize, timeout: i6
             json!({"a": "ins", "k": k, "st": s})
         } else if x < 62 {
             json!({"a": "upd", "k": k, "st": s})
-        } else if x < 72 {
+        } else if x < (if closest == 2 { 68 } else { 72 }) {
             json!({"a": "rem", "k": k})
         } else if x < 86 {
             json!({"a": "tick", "d": if rng.gen_bool(0.5) { 1 } else { timeout.max(1) }})
-        } else if x < 92 || !closest {
+        } else if closest == 2 && x < 90 {
+            json!({"a": "closest", "t": if rng.gen_bool(0.2) { local } else { k }})
+        } else if x < 92 || closest == 0 {
             json!({"a": "get", "k": if rng.gen_bool(0.1) { local } else { k }})
         } else {
             json!({"a": "closest", "t": k})
@@ -503,7 +505,7 @@ pub fn main(a: &vcommon::Args) {
             let seed = a.num(1);
             let runs = a.num(2);
             let mut out = Out::create(a.get(3));
-            let closest = a.kv_num("closest", 1) == 1;
+            let closest = a.kv_num("closest", 1);
             let mut rng = vcommon::rng(seed);
             for _ in 0..runs {
                 let bits = rng.gen_range(2..=4usize);
@@ -529,7 +531,10 @@ pub fn main(a: &vcommon::Args) {
             let nk = 1u64 << bits;
             let all: Vec<u64> = (0..nk).collect();
             let some = [0u64, rng.gen_range(1..nk)];
-            closest_all(&mut out, bits, maxn, if bits <= 3 { &all } else { &some }, (256 - bits..256).collect(), 0);
+            let all = if a.kv_num("locals", 0) == 2 { some.to_vec() } else { all };
+            // bottom embedding first: only there the real bucket 0 (which holds at most one key) is in use
+            closest_all(&mut out, bits, maxn, if bits <= 3 { &all } else { &some }, (0..bits).collect(), 0);
+            closest_all(&mut out, bits.min(3), maxn, &[rng.gen_range(0..(1u64 << bits.min(3)))], (256 - bits.min(3)..256).collect(), seed + 2);
             closest_all(&mut out, bits.min(3), maxn, &[rng.gen_range(0..(1u64 << bits.min(3)))], rand_pos(&mut rng, bits.min(3)), seed + 1);
             closest_all(&mut out, 2, 3, &[0, 1, 2, 3], vec![0, 1], 0);
             println!("records={}", out.events);
